@@ -24,6 +24,8 @@ POOL = [
     ('msg', '[1000.500]  -> wl_display@1.frobnicate(3)', 'frobnicate'),            # name not in the shipped description of a known interface
     ('msg', '[1000.600] wl_display@1.error(wl_display@1, 2, "x", 4, 5)', 'error'),   # more arguments than described
     ('msg', '[1000.700]  -> wl_display@1.get_registry2(new id wl_registry@9)', 'get_registry2'),
+    ('msg', '[1000.750] wl_display@1.frobnicate_nil(nil, 4)', 'frobnicate_nil'),                   # nil / enum-less int on an undescribed message
+    ('msg', '[1000.760] wl_display@1.delete_id2(3, nil, wl_display@1)', 'delete_id2'),
     ('text', 'hello from the program', None),
     ('text', '', None),
     ('text', '   \t ', None),
